@@ -22,6 +22,13 @@ func TestRound7Reports(t *testing.T) {
 			t.Errorf("%s on %q: regexp %v %v, coregex %v %v", c.p, c.h, std.MatchString(c.h), std.FindStringIndex(c.h), re.MatchString(c.h), re.FindStringIndex(c.h))
 		}
 	}
+	// boundary shortcut declined for match-tagged DFA states (campaign seed 11)
+	for _, c := range []struct{ p, h string }{{`\d.+\B[b]*`, "1xbaa"}, {`\d.+\B[^a]*`, "1xfbfbb1aa"}, {`\d.+\B[^a]*`, "1x1aa"}} {
+		std, re := regexp.MustCompile(c.p), coregex.MustCompile(c.p)
+		if w, g := fmt.Sprint(std.FindAllStringIndex(c.h, -1)), fmt.Sprint(re.FindAllStringIndex(c.h, -1)); w != g {
+			t.Errorf("%s on %q: regexp %s, coregex %s", c.p, c.h, w, g)
+		}
+	}
 	// one-pass builder merged capture masks
 	for _, c := range []struct{ p, h string }{{`^([ab][ab]*)+$`, "ab"}, {`([ab][ab]*)+`, "abab"}, {`^(a[ab]*)+$`, "aab"}} {
 		std, re := regexp.MustCompile(c.p), coregex.MustCompile(c.p)
